@@ -6,6 +6,7 @@ Every program is parsed and evaluated by the real code over an environment of tr
 recorded events (identifier resolutions, attribute reads performed by the evaluator, leaks) are
 validated by TLC.
 """
+import builtins
 import json
 import multiprocessing as mp
 import os
@@ -108,6 +109,8 @@ def environment():
 
 
 _installed = [False]
+_env = [{}]
+_MISSING = object()
 
 
 def install_resolution_probe():
@@ -120,14 +123,21 @@ def install_resolution_probe():
     def get_value(token, locals, globals):
         if isinstance(token, ex.IdentifierToken):
             ok = True
+            val = _MISSING
             try:
-                return orig(token, locals, globals)
+                val = orig(token, locals, globals)
+                return val
             except BaseException:
                 ok = False
                 raise
             finally:
-                _log.append({"e": "resolve", "nm": token.name, "ok": ok, "inLocals": token.name in locals,
-                             "inWhitelist": token.name in WHITELIST})
+                # "in the given variables" / "in the whitelist" are judged against what the HARNESS handed to eval() and
+                # against the documented list - not against whatever scopes the evaluator passes around internally:
+                # the value must be the very object given under that name, or the builtin of that name
+                env = _env[0]
+                in_locals = token.name in env and (not ok or val is env[token.name])
+                in_white = token.name in WHITELIST and (not ok or val is getattr(builtins, token.name, _MISSING))
+                _log.append({"e": "resolve", "nm": token.name, "ok": ok, "inLocals": in_locals, "inWhitelist": in_white})
         return orig(token, locals, globals)
     ex.Expression.get_value = staticmethod(get_value)
     _installed[0] = True
@@ -138,7 +148,16 @@ def evaluate(prog):
     from harness.watchdog import Expired, deadline
     install_resolution_probe()
     del _log[:]
+    # an earlier evaluation in the same process, over OTHER variables (one of them shadowing a whitelisted builtin):
+    # nothing of it may be visible to the evaluation under test
+    try:
+        _env[0] = {"prev": Inner(), "zz": CanaryClassK3(), "len": 0}
+        ex.parse("prev == zz or len").eval(locals=dict(_env[0]))
+    except BaseException:
+        pass
+    del _log[:]
     env = environment()
+    _env[0] = env
     outcome, text = "value", ""
     try:
         with deadline(3.0):
@@ -205,7 +224,8 @@ def run():
              'list(map("{0._x}".format, lst))', '"{0.__class__.__name__}".format(s)', '"{0[k]._x}".format(d)',
              'vars(s)', 'type(s)', 'dir(s)', '__import__("os")', 'eval("1")', 'open("/etc/passwd")', 'globals()',
              's.method()', 's.pub.value', 'hash(s)', 'str(s)', 'ascii(s)', 'sorted([s.value, t.value])',
-             'from._x', 'to.pub._x', '"{0._x}".format(from)', 'from.pub.value == to.pub.value']
+             'from._x', 'to.pub._x', '"{0._x}".format(from)', 'from.pub.value == to.pub.value',
+             'prev', 'zz', 'zz.pub', 'zz._x', 'prev.value', 'len(lst)', 'len(lst) == 2', 'len']
     r = rng("c19")
     if t != "quick":
         toks = ["._x", ".pub", ".format", "(", ")", "[", "]", '"{0._x}"', "s", "lst", ",", " ", ".__class__", "getattr", "0"]
